@@ -174,6 +174,32 @@ def top_fn(prog, p):
     return b.path
 
 
+_HPF = {}
+
+
+def helper_panic_free(prog, path):
+    """every panic obligation of the helper's own body (closures included) is discharged for arbitrary arguments"""
+    key = (id(prog), path)
+    if key in _HPF:
+        return _HPF[key]
+    _HPF[key] = False
+    ok = True
+    for p2, b2 in prog.bodies.items():
+        if not (p2 == path or p2.startswith(path + "::{closure")):
+            continue
+        try:
+            ctx = oblig.Ctx(prog, b2)
+            ctx._in_context = True            # no appeal to the helper's call sites: for every argument
+            for o in oblig.collect(ctx):
+                oblig.discharge(ctx, o)
+                if o.verdict == "OPEN":
+                    ok = False
+        except RecursionError:
+            ok = False
+    _HPF[key] = ok
+    return ok
+
+
 def kernel_census(prog, sc):
     """per top-level kernel function (closures folded in): obligations, OPEN ones by coarse class, first OPEN site"""
     out = {}
@@ -190,6 +216,12 @@ def kernel_census(prog, sc):
             oblig.discharge(ctx, o)
             f["obligations"] += 1
             if o.verdict == "OPEN":
+                # a site inside the inlined copy of a new private helper: if the helper, analysed on its own, is shown
+                # panic-free for every argument, the site is panic-free here as well (the inlined copy only ADDS the
+                # caller's facts; it can lose a length relation through the extra deref/reborrow of the argument)
+                hp = next((c_ for (lo_, hi_, c_) in getattr(b, "inl_ranges", []) if lo_ <= o.bb < hi_), None)
+                if hp is not None and helper_panic_free(prog, hp):
+                    continue
                 k = census_key(o)
                 f["open"][k] = f["open"].get(k, 0) + 1
                 f["where"].setdefault(k, o.where)
